@@ -881,16 +881,99 @@ def sc_linspace(n, c, e):
         raise _Done()
 
 
-def sc_tril(n, c, e0, e1):
+def sc_tril(n, c, e0, e1, upper=0):
     _start()
     sx.assume(c <= n)
     sx.assume(e0 < n)
     sx.assume(e1 < n)
     x = G.stub_array("x", (n, n), (c, c))
-    out = _xp().tril(x)
+    up = sx.conc(upper)
+    out = _xp().triu(x) if up else _xp().tril(x)
     _declared_ok(out, (n, n))
-    if MODE == "route":
-        raise _Done()
+    # out[e0, e1] = where(row >= col, ...) with the GLOBAL row / column numbers of the element (they come from per-block offsets)
+    t, _ = _elem(out, (e0, e1))
+    sx.require(t[0] == "fn" and t[1] == "where" and t[2][0][0] == "fn", "tri-is-not-a-masked-copy", str(t))
+    cond = t[2][0]
+    vals = [a[2] for a in cond[2] if isinstance(a, tuple) and a and a[0] == "val"]
+    sx.require(len(vals) == 2, "tri-mask-is-not-a-comparison-of-index-values", str(cond))
+    keep_if_ge, other = (t[2][1], t[2][2])
+    data = other if up else keep_if_ge
+    _expect(data, ("elem", "x", (e0, e1)), "tri-copies-the-wrong-element")
+    # semantics for k = 0: tril keeps x where row >= col, triu keeps x where col >= row
+    sx.require(cond[1] == "greater_equal", "tri-mask-uses-another-comparison", str(cond))
+    ge = vals[0] >= vals[1]
+    kept = sx.snot(ge) if up else ge
+    want = (e1 >= e0) if up else (e0 >= e1)
+    sx.require(sx.sor(sx.sand(kept, want), sx.sand(sx.snot(kept), sx.snot(want))), "tri-keeps-the-wrong-side",
+               f"mask compares {vals} for element ({e0},{e1}), upper={up}")
+
+
+def sc_max_split(n, c, s, j):
+    _start()
+    sx.assume(c <= n)
+    sx.assume(j < n)
+    x = G.stub_array("x", (n,), (c,))
+    out = _xp().max(x, split_every=s)
+    _declared_ok(out, ())
+    t, _ = _elem(out, ())
+    m = anp.term_mult(t, ("x", (j,)))
+    sx.require(m == 1, "source-element-not-considered-exactly-once", f"x[{j}] enters the maximum {m} times")
+
+
+def sc_concat_axis1(n, m1, m2, c, c2, e0, e1):
+    _start()
+    sx.assume(c <= n)
+    sx.assume(e0 < n)
+    m1_, m2_ = sx.conc(m1), sx.conc(m2)
+    sx.assume(c2 <= m1_)
+    sx.assume(c2 <= m2_)
+    x = G.stub_array("x", (n, m1_), (c, c2))
+    y = G.stub_array("y", (n, m2_), (c, c2))
+    out = _xp().concat([x, y], axis=1)
+    _declared_ok(out, (n, m1_ + m2_))
+    sx.assume(e1 < m1_ + m2_)
+    t, _ = _elem(out, (e0, e1))
+    if e1 < m1_:
+        _expect(t, ("elem", "x", (e0, e1)))
+    else:
+        _expect(t, ("elem", "y", (e0, e1 - m1_)))
+
+
+def sc_roll_flip_2d(n, m, c, c2, sh, which, e0, e1):
+    """roll / flip along axis 1 of an (n, m) array"""
+    _start()
+    sx.assume(c <= n)
+    sx.assume(e0 < n)
+    m_ = sx.conc(m)
+    sx.assume(c2 <= m_)
+    sx.assume(e1 < m_)
+    x = G.stub_array("x", (n, m_), (c, c2))
+    if sx.conc(which) == 0:
+        out = _xp().roll(x, sx.conc(sh), axis=1)
+        want = (e0, (e1 - sh) % m_)
+    else:
+        out = _xp().flip(x, axis=1)
+        want = (e0, m_ - 1 - e1)
+    _declared_ok(out, (n, m_))
+    t, _ = _elem(out, (e0, e1))
+    _expect(t, ("elem", "x", want))
+
+
+def sc_cumsum_axis1(n, m, c, c2, e0, e1, j0, j1):
+    _start()
+    sx.assume(c <= n)
+    sx.assume(e0 < n)
+    sx.assume(j0 < n)
+    m_ = sx.conc(m)
+    sx.assume(c2 <= m_)
+    sx.assume(e1 < m_)
+    sx.assume(j1 < m_)
+    x = G.stub_array("x", (n, m_), (c, c2))
+    out = _xp().cumulative_sum(x, axis=1)
+    _declared_ok(out, (n, m_))
+    t, _ = _elem(out, (e0, e1))
+    mlt = anp.term_mult(t, ("x", (j0, j1)))
+    sx.require(mlt == sx.ite(sx.sand(j0 == e0, j1 <= e1), 1, 0), "wrong-prefix", f"x[{j0},{j1}] contributes {mlt} times to out[{e0},{e1}]")
 
 
 def sc_map_overlap(n, c, d, e):
@@ -941,7 +1024,11 @@ SCENARIOS = {
     "vecdot": (sc_vecdot, lambda N: [("n", 1, N), ("c", 1, N), ("j", 0, N)]),
     "index[int-array]": (sc_take_indices, lambda N: [("n", 1, N), ("c", 1, N), ("i0", 0, N), ("i1", 0, N), ("e", 0, 1)]),
     "linspace": (sc_linspace, lambda N: [("n", 1, N), ("c", 1, N), ("e", 0, N)]),
-    "tril": (sc_tril, lambda N: [("n", 1, 4), ("c", 1, 4), ("e0", 0, 4), ("e1", 0, 4)]),
+    "tril/triu": (sc_tril, lambda N: [("n", 1, 4), ("c", 1, 4), ("e0", 0, 4), ("e1", 0, 4), ("upper", 0, 1)]),
+    "max[split_every]": (sc_max_split, lambda N: [("n", 1, N + 2), ("c", 1, N + 2), ("s", 2, 4), ("j", 0, N + 2)]),
+    "concat[axis1-2d]": (sc_concat_axis1, lambda N: [("n", 1, 4), ("m1", 1, 3), ("m2", 1, 3), ("c", 1, 4), ("c2", 1, 3), ("e0", 0, 3), ("e1", 0, 5)]),
+    "roll/flip[axis1-2d]": (sc_roll_flip_2d, lambda N: [("n", 1, 4), ("m", 1, 4), ("c", 1, 4), ("c2", 1, 4), ("sh", -2, 3), ("which", 0, 1), ("e0", 0, 3), ("e1", 0, 3)]),
+    "cumulative_sum[axis1-2d]": (sc_cumsum_axis1, lambda N: [("n", 1, 3), ("m", 1, 6), ("c", 1, 3), ("c2", 1, 6), ("e0", 0, 2), ("e1", 0, 5), ("j0", 0, 2), ("j1", 0, 5)]),
     "map_overlap": (sc_map_overlap, lambda N: [("n", 1, N), ("c", 1, N), ("d", 1, 2), ("e", 0, N)]),
     "negative": (sc_negative, lambda N: [("n", 1, N), ("c", 1, N), ("e", 0, N)]),
     "subtract[same-chunks]": (sc_add_same_chunks, lambda N: [("n", 1, N), ("c", 1, N), ("e", 0, N)]),
